@@ -186,7 +186,7 @@ static const int CELL_FSM[6] = { FSM_A, FSM_A, FSM_A, FSM_A, FSM_U, FSM_U };
 
 struct case_budget chk_budget(const char *tier)
 {
-        struct case_budget b = { N_SWEEP, strcmp(tier, "thorough") == 0 ? 1500000 : 60000 };
+        struct case_budget b = { N_SWEEP, strcmp(tier, "thorough") == 0 ? 15000000 : 250000 };
         return b;
 }
 void chk_run_case(uint64_t seed, long c, bool is_sweep)
